@@ -511,4 +511,386 @@ example : (sortNames [nWrite, '-' :: nRead]).all validPerm = true ∧
     escOpt ['u'] = some (some ['u']) ∧
     escOpt (if ['d'] = ['@', 'a', 'l', 'l'] then [] else ['d']) = some (some ['d']) := by decide
 
+/-! ### the database DSN service: the DSN cache is a transparent memo -/
+
+theorem authorized_eq_core (st : St) (su : Name) (sa : Bool) (u d t : Name) (ops : List Name) :
+    authorized st su sa u d t ops = authorizedCore (readDSN st d) st.perms su sa u d t ops := rfl
+
+theorem lookup_setKey_self {α : Type} (m : List (Name × α)) (k : Name) (v : α) :
+    (setKey m k v).lookup k = some v := by
+  unfold setKey
+  split
+  · rename_i h
+    induction m with
+    | nil => simp [List.lookup] at h
+    | cons e m ih =>
+      obtain ⟨a, b⟩ := e
+      by_cases ha : a = k
+      · subst ha; simp
+      · have hb : (k == a) = false := by simpa using fun e => ha e.symm
+        simp only [List.lookup, hb] at h
+        simp only [List.map_cons, ha, if_false, List.lookup, hb]
+        exact ih h
+  · rename_i h
+    induction m with
+    | nil => simp
+    | cons e m ih =>
+      obtain ⟨a, b⟩ := e
+      cases hb : (k == a) with
+      | true => simp [List.lookup, hb] at h
+      | false =>
+        simp only [List.lookup, hb] at h
+        simp only [List.cons_append, List.lookup, hb]
+        exact ih h
+
+theorem lookup_delKey_self {α : Type} (m : List (Name × α)) (k : Name) : (delKey m k).lookup k = none := by
+  induction m with
+  | nil => rfl
+  | cons e m ih =>
+    obtain ⟨a, b⟩ := e
+    simp only [delKey, List.filter_cons] at ih ⊢
+    by_cases ha : a = k
+    · simp [ha, ih]
+    · have hb : (k == a) = false := by simpa using fun e => ha e.symm
+      simp [ha, List.lookup, hb, ih]
+
+theorem lookup_delKey_ne {α : Type} (m : List (Name × α)) (k k' : Name) (h : k ≠ k') :
+    (delKey m k').lookup k = m.lookup k := by
+  induction m with
+  | nil => rfl
+  | cons e m ih =>
+    obtain ⟨a, b⟩ := e
+    simp only [delKey, List.filter_cons] at ih ⊢
+    by_cases ha : a = k'
+    · have hb : (k == k') = false := by simpa using h
+      subst ha
+      simp [List.lookup, hb, ih]
+    · simp only [ha, decide_false, Bool.not_false, if_true, List.lookup]; rw [ih]
+
+/-- the memo invariant of caches.DSNCache: an entry of the cache equals the stored row of that name -/
+def DSt.CacheOK (s : DSt) : Prop := ∀ n r, s.cache.lookup n = some r → s.rows.lookup n = some r
+
+/-- `s'` differs from `s` in the cache only, and its cache is still a memo of the rows -/
+def DSt.Same (s s' : DSt) : Prop := s'.CacheOK ∧ s'.rows = s.rows ∧ s'.dauth = s.dauth ∧ s'.perms = s.perms
+
+theorem DSt.Same.refl {s : DSt} (h : s.CacheOK) : s.Same s := ⟨h, rfl, rfl, rfl⟩
+
+theorem DSt.Same.trans {a b c : DSt} (h1 : a.Same b) (h2 : b.Same c) : a.Same c :=
+  ⟨h2.1, h2.2.1.trans h1.2.1, h2.2.2.1.trans h1.2.2.1, h2.2.2.2.trans h1.2.2.2⟩
+
+/-- ReadDSN through the cache answers what the stored row says, and keeps the memo invariant -/
+theorem dbReadDSN_spec (s : DSt) (hc : s.CacheOK) (n : Name) :
+    (dbReadDSN s n).2 = s.rows.lookup n ∧ s.Same (dbReadDSN s n).1 := by
+  unfold dbReadDSN
+  cases h1 : s.cache.lookup n with
+  | some r => exact ⟨(hc n r h1).symm, DSt.Same.refl hc⟩
+  | none =>
+    cases h2 : s.rows.lookup n with
+    | none => exact ⟨rfl, DSt.Same.refl hc⟩
+    | some r =>
+      refine ⟨rfl, ?_, rfl, rfl, rfl⟩
+      intro m q hm
+      by_cases e : m = n
+      · subst e; simp only [lookup_setKey_self] at hm; rw [← hm]; exact h2
+      · simp only [lookup_setKey_ne _ _ _ _ e] at hm; exact hc m q hm
+
+theorem dbAuthDSN_spec (s : DSt) (hc : s.CacheOK) (u n : Name) (a : Act) :
+    (dbAuthDSN s u n a).2 = authDSNCore (s.rows.lookup n) (dauthFind s.dauth u n) a ∧ s.Same (dbAuthDSN s u n a).1 := by
+  obtain ⟨h1, h2⟩ := dbReadDSN_spec s hc n
+  refine ⟨?_, h2⟩
+  simp only [dbAuthDSN, h1, h2.2.2.1]
+
+theorem dbAuthorized_spec (s : DSt) (hc : s.CacheOK) (su : Name) (sa : Bool) (u d t : Name) (ops : List Name) :
+    (dbAuthorized s su sa u d t ops).2 = authorizedCore (s.rows.lookup d) s.perms su sa u d t ops ∧
+    s.Same (dbAuthorized s su sa u d t ops).1 := by
+  obtain ⟨h1, h2⟩ := dbReadDSN_spec s hc d
+  unfold dbAuthorized
+  split
+  · rename_i h; exact ⟨by simp [authorizedCore, h], DSt.Same.refl hc⟩
+  · refine ⟨?_, h2⟩
+    simp only [h1, h2.2.2.2]
+
+/-- C43, database DSN service: with the memo invariant, a row request is decided exactly as if every reader had
+    read the STORED DSN row — the cache is invisible -/
+theorem C43_db_cache_transparent (s : DSt) (hc : s.CacheOK) (u : Name) (adm : Bool) (idp : Act) (op : RowOp) (d t : Name) :
+    (dbRowRequest s u adm idp op d t).2 =
+      rowCore (s.rows.lookup d) adm (identityAuthorizes idp op.action)
+        (authDSNCore (s.rows.lookup d) (dauthFind s.dauth u d) op.action)
+        (authorizedCore (s.rows.lookup d) s.perms u adm u d t [op.perm]) ∧
+    s.Same (dbRowRequest s u adm idp op d t).1 := by
+  obtain ⟨h1, h2⟩ := dbReadDSN_spec s hc d
+  obtain ⟨a1, a2⟩ := dbAuthDSN_spec _ h2.1 u d op.action
+  have s2 := h2.trans a2
+  obtain ⟨b1, b2⟩ := dbAuthorized_spec _ h2.1 u adm u d t [op.perm]
+  obtain ⟨c1, c2⟩ := dbAuthorized_spec _ s2.1 u adm u d t [op.perm]
+  rw [h2.2.1, h2.2.2.1] at a1
+  rw [h2.2.1, h2.2.2.2] at b1
+  rw [s2.2.1, s2.2.2.2] at c1
+  have s3 := h2.trans b2
+  have s4 := s2.trans c2
+  unfold dbRowRequest
+  simp only [h1]
+  cases hr : s.rows.lookup d with
+  | none => exact ⟨rfl, h2⟩
+  | some restricted =>
+    rw [hr] at a1 b1 c1
+    cases adm <;> cases restricted <;> cases hid : identityAuthorizes idp op.action <;>
+      cases hz : authDSNCore _ (dauthFind s.dauth u d) op.action <;>
+      cases hy : authorizedCore _ s.perms u _ u d t [op.perm] <;>
+      simp_all [rowCore]
+
+/-! ### every operation of the database DSN service keeps the memo invariant -/
+
+theorem dbWriteDSN_ok (s : DSt) (hc : s.CacheOK) (n : Name) (r : Bool) :
+    (dbWriteDSN s n r).CacheOK ∧ (dbWriteDSN s n r).rows.lookup n = some r := by
+  refine ⟨?_, lookup_setKey_self _ _ _⟩
+  intro m q hm
+  simp only [dbWriteDSN] at hm ⊢
+  by_cases e : m = n
+  · subst e; rw [lookup_setKey_self] at hm ⊢; exact hm
+  · rw [lookup_setKey_ne _ _ _ _ e, lookup_delKey_ne _ _ _ e] at hm
+    rw [lookup_setKey_ne _ _ _ _ e]; exact hc m q hm
+
+theorem dbEvict_ok (s : DSt) (hc : s.CacheOK) (n : Name) : (dbEvict s n).CacheOK := by
+  intro m q hm
+  simp only [dbEvict] at hm ⊢
+  by_cases e : m = n
+  · subst e; rw [lookup_delKey_self] at hm; cases hm
+  · rw [lookup_delKey_ne _ _ _ e] at hm; exact hc m q hm
+
+theorem dbDeleteDSN_ok (s : DSt) (hc : s.CacheOK) (n : Name) : (dbDeleteDSN s n).CacheOK := by
+  intro m q hm
+  unfold dbDeleteDSN at hm ⊢
+  split at hm
+  all_goals
+    simp only at hm ⊢
+    by_cases e : m = n
+    · subst e; rw [lookup_delKey_self] at hm; cases hm
+    · rw [lookup_delKey_ne _ _ _ e] at hm
+      first | (rw [lookup_delKey_ne _ _ _ e]; exact hc m q hm) | exact hc m q hm
+
+/-- GrantDSN keeps the memo invariant, and afterwards the STORE records the DSN as restricted -/
+theorem C43_db_grant_restricts (s s' : DSt) (hc : s.CacheOK) (u n : Name) (a : Act) (g : Bool)
+    (h : dbGrantDSN s u n a g = some s') : s'.CacheOK ∧ s'.rows.lookup n = some true := by
+  obtain ⟨h1, h2⟩ := dbReadDSN_spec s hc n
+  unfold dbGrantDSN at h
+  simp only [h1] at h
+  cases hr : s.rows.lookup n with
+  | none => rw [hr] at h; cases h
+  | some restricted =>
+    rw [hr] at h
+    simp only [Option.some.injEq] at h
+    subst h
+    cases restricted with
+    | false =>
+      have := dbWriteDSN_ok _ h2.1 n true
+      exact ⟨this.1, this.2⟩
+    | true =>
+      refine ⟨h2.1, ?_⟩
+      simp only [Bool.not_true, Bool.false_eq_true, if_false]
+      rw [h2.2.1]; exact hr
+
+theorem dstep_ok (s : DSt) (hc : s.CacheOK) (op : DOp) : (dstep s op).CacheOK := by
+  cases op with
+  | perms o => exact hc
+  | writeDSN n r => exact (dbWriteDSN_ok s hc n r).1
+  | deleteDSN n => exact dbDeleteDSN_ok s hc n
+  | revokeAllDSN n => exact hc
+  | grantDSN u n a g =>
+    simp only [dstep]
+    cases h : dbGrantDSN s u n a g with
+    | none => exact hc
+    | some s' => exact (C43_db_grant_restricts s s' hc u n a g h).1
+  | evict n => exact dbEvict_ok s hc n
+  | readDSN n => exact (dbReadDSN_spec s hc n).2.1
+  | authDSN u n a => exact (dbAuthDSN_spec s hc u n a).2.1
+  | authorized su sa u d t ops => exact (dbAuthorized_spec s hc su sa u d t ops).2.1
+  | row u adm idp op d t => exact (C43_db_cache_transparent s hc u adm idp op d t).2.1
+
+/-- C43, database DSN service: after EVERY history of DSN operations, grants, evictions and (cache-filling)
+    queries, each entry of the DSN cache equals the stored row -/
+theorem C43_db_cacheOK_history (h : List DOp) : (drun DSt.init h).CacheOK := by
+  have key : ∀ (s : DSt), s.CacheOK → (drun s h).CacheOK := by
+    induction h with
+    | nil => intro s hs; exact hs
+    | cons op h ih => intro s hs; exact ih (dstep s op) (dstep_ok s hs op)
+  exact key DSt.init (by intro n r h; cases h)
+
+/-- C43, database DSN service: a row request by a non-administrator that is let through on a DSN which the STORE
+    records as restricted had the DSN-level authorization (identity, or a dsns_auth row of exactly this user and
+    DSN) AND the table grant for exactly (user, dsn, table) and the handler's operation -/
+theorem C43_db_row_pass_needs_grants (s : DSt) (hc : s.CacheOK) (u : Name) (idp : Act) (op : RowOp) (d t : Name)
+    (hr : s.rows.lookup d = some true) (hp : (dbRowRequest s u false idp op d t).2 = .pass) :
+    (identityAuthorizes idp op.action = true ∨ ∃ v, dauthFind s.dauth u d = some v ∧ v.meets op.action = true) ∧
+    Recorded s.perms u d t [op.perm] := by
+  rw [(C43_db_cache_transparent s hc u false idp op d t).1, hr] at hp
+  have hst : authorizedCore (some true) s.perms u false u d t [op.perm]
+      = authorized ⟨[(d, true)], [], s.perms⟩ u false u d t [op.perm] := by
+    simp [authorized, authorizedCore, readDSN, List.lookup]
+  cases hi : identityAuthorizes idp op.action <;>
+    cases ha : authDSNCore (some true) (dauthFind s.dauth u d) op.action <;>
+    cases hz : authorizedCore (some true) s.perms u false u d t [op.perm] <;>
+    simp [rowCore, hi, ha, hz] at hp
+  all_goals
+    rw [hst] at hz
+    have hrec := (C43_iff ⟨[(d, true)], [], s.perms⟩ u false u d t [op.perm]
+      (by simp [readDSN, List.lookup]) (by simp)).1 hz
+    refine ⟨?_, hrec⟩
+  · right
+    simp only [authDSNCore, Bool.not_true, Bool.false_eq_true, if_false] at ha
+    cases hf : dauthFind s.dauth u d with
+    | none => rw [hf] at ha; cases ha
+    | some v => rw [hf] at ha; exact ⟨v, rfl, ha⟩
+  · left; rfl
+  · left; rfl
+
+/-- … hence after every history -/
+theorem C43_db_row_history (h : List DOp) (u : Name) (idp : Act) (op : RowOp) (d t : Name)
+    (hr : (drun DSt.init h).rows.lookup d = some true)
+    (hp : (dbRowRequest (drun DSt.init h) u false idp op d t).2 = .pass) :
+    (identityAuthorizes idp op.action = true ∨
+      ∃ v, dauthFind (drun DSt.init h).dauth u d = some v ∧ v.meets op.action = true) ∧
+    Recorded (drun DSt.init h).perms u d t [op.perm] :=
+  C43_db_row_pass_needs_grants _ (C43_db_cacheOK_history h) u idp op d t hr hp
+
+/-- the memo invariant is what carries the property: in a state where the cache still holds the unrestricted
+    copy of a DSN that the store records as restricted (the state a restricting write that bypasses the cache
+    leaves behind), a user with no grant of any kind reads the rows -/
+theorem C43_db_stale_cache_counterexample :
+    let s : DSt := ⟨[(['d'], true)], [(['d'], false)], [], []⟩
+    s.rows.lookup ['d'] = some true ∧ ¬ s.CacheOK ∧
+    (dbRowRequest s ['u'] false Act.none .read ['d'] ['t']).2 = .pass := by
+  refine ⟨by decide, ?_, by decide⟩
+  intro h
+  have := h ['d'] false (by decide)
+  revert this; decide
+
+/-! ### DSN-level grants in the database service: keyed by the PAIR (user, dsn), no joined key -/
+
+theorem C43_db_authdsn_iff (s : DSt) (hc : s.CacheOK) (u n : Name) (act : Act) (hr : s.rows.lookup n = some true) :
+    (dbAuthDSN s u n act).2 = true ↔ ∃ v, dauthFind s.dauth u n = some v ∧ v.meets act = true := by
+  rw [(dbAuthDSN_spec s hc u n act).1, hr]
+  cases hl : dauthFind s.dauth u n <;> simp [authDSNCore]
+
+theorem dauthFind_set_other (m : List (Name × Name × Act)) (u d u' d' : Name) (v : Act)
+    (h : (u', d') ≠ (u, d)) : dauthFind (dauthSet m u' d' v) u d = dauthFind m u d := by
+  have hne : ¬(u' = u ∧ d' = d) := fun e => h (by rw [e.1, e.2])
+  have h1 : dauthFind (m.map fun e => if e.1 = u' ∧ e.2.1 = d' then (u', d', v) else e) u d = dauthFind m u d := by
+    induction m with
+    | nil => rfl
+    | cons e m ih =>
+      simp only [List.map_cons, dauthFind]
+      by_cases he : e.1 = u' ∧ e.2.1 = d'
+      · simp only [he, and_self, if_true, hne, if_false]; exact ih
+      · simp only [he, if_false]; rw [ih]
+  have h2 : dauthFind (m ++ [(u', d', v)]) u d = dauthFind m u d := by
+    clear h1
+    induction m with
+    | nil => simp [dauthFind, hne]
+    | cons e m ih => simp only [List.cons_append, dauthFind]; rw [ih]
+  unfold dauthSet
+  split
+  · exact h1
+  · exact h2
+
+theorem dauthFind_filter_none (m : List (Name × Name × Act)) (f : Name × Name × Act → Bool) (u d : Name)
+    (h : dauthFind m u d = none) : dauthFind (m.filter f) u d = none := by
+  induction m with
+  | nil => rfl
+  | cons e m ih =>
+    simp only [dauthFind] at h
+    split at h
+    · cases h
+    · rename_i hne
+      simp only [List.filter_cons]
+      split
+      · simp only [dauthFind, hne, if_false]; exact ih h
+      · exact ih h
+
+/-- does the operation write a dsns_auth row for exactly (u, n)? -/
+def DOp.dsnGrantsTo (u n : Name) : DOp → Prop
+  | .grantDSN u' n' _ _ => (u', n') = (u, n)
+  | _ => False
+
+theorem dstep_dauth_other (s : DSt) (hc : s.CacheOK) (op : DOp) (u n : Name) (h : ¬ op.dsnGrantsTo u n)
+    (h0 : dauthFind s.dauth u n = none) : dauthFind (dstep s op).dauth u n = none := by
+  cases op with
+  | perms o => exact h0
+  | writeDSN n' r => exact h0
+  | deleteDSN n' =>
+    simp only [dstep, dbDeleteDSN]; split
+    · exact dauthFind_filter_none _ _ _ _ h0
+    · exact h0
+  | revokeAllDSN n' => exact dauthFind_filter_none _ _ _ _ h0
+  | grantDSN u' n' a g =>
+    simp only [dstep]
+    cases hg : dbGrantDSN s u' n' a g with
+    | none => exact h0
+    | some s' =>
+      obtain ⟨-, h2⟩ := dbReadDSN_spec s hc n'
+      unfold dbGrantDSN at hg
+      cases hr : (dbReadDSN s n').2 with
+      | none => simp only [hr] at hg; cases hg
+      | some restricted =>
+        simp only [hr, Option.some.injEq] at hg
+        subst hg
+        simp only [Option.getD_some]
+        rw [dauthFind_set_other _ _ _ _ _ _ h]
+        split
+        · simp only [dbWriteDSN]; rw [h2.2.2.1]; exact h0
+        · rw [h2.2.2.1]; exact h0
+  | evict n' => exact h0
+  | readDSN n' => rw [show (dstep s (.readDSN n')).dauth = s.dauth from (dbReadDSN_spec s hc n').2.2.2.1]; exact h0
+  | authDSN u' n' a => rw [show (dstep s (.authDSN u' n' a)).dauth = s.dauth from (dbAuthDSN_spec s hc u' n' a).2.2.2.1]; exact h0
+  | authorized su sa u' d t ops =>
+    rw [show (dstep s (.authorized su sa u' d t ops)).dauth = s.dauth from (dbAuthorized_spec s hc su sa u' d t ops).2.2.2.1]; exact h0
+  | row u' adm idp op d t =>
+    rw [show (dstep s (.row u' adm idp op d t)).dauth = s.dauth from (C43_db_cache_transparent s hc u' adm idp op d t).2.2.2.1]; exact h0
+
+/-- DSN level, no cross-authorization, database service (FULL: any user and DSN names, '|' included): if no
+    GrantDSN of the history is for exactly (u, n), user u is never authorized on a DSN n that the store records as
+    restricted -/
+theorem C43_db_dsn_no_cross (h : List DOp) (u n : Name) (act : Act)
+    (hh : ∀ op ∈ h, ¬ op.dsnGrantsTo u n) (hr : (drun DSt.init h).rows.lookup n = some true) :
+    (dbAuthDSN (drun DSt.init h) u n act).2 = false := by
+  have key : ∀ (s : DSt) (l : List DOp), s.CacheOK → (∀ op ∈ l, ¬ op.dsnGrantsTo u n) →
+      dauthFind s.dauth u n = none → dauthFind (drun s l).dauth u n = none := by
+    intro s l
+    induction l generalizing s with
+    | nil => intro _ _ h0; exact h0
+    | cons op l ih =>
+      intro hc hl h0
+      exact ih (dstep s op) (dstep_ok s hc op) (fun o ho => hl o (List.mem_cons_of_mem _ ho))
+        (dstep_dauth_other s hc op u n (hl op List.mem_cons_self) h0)
+  have hl := key DSt.init h (by intro n r h; cases h) hh rfl
+  rw [(dbAuthDSN_spec _ (C43_db_cacheOK_history h) u n act).1, hr, hl]; rfl
+
+/-- the pipe twins of C43_dsnkey_counterexample are kept apart by the database service -/
+example :
+    (dbAuthDSN (drun DSt.init [.writeDSN ['c'] true, .writeDSN ['b', '|', 'c'] true,
+        .grantDSN ['a', '|', 'b'] ['c'] ⟨true, true, false⟩ true]) ['a'] ['b', '|', 'c'] ⟨true, false, false⟩).2 = false ∧
+    (dbAuthDSN (drun DSt.init [.writeDSN ['c'] true, .writeDSN ['b', '|', 'c'] true,
+        .grantDSN ['a', '|', 'b'] ['c'] ⟨true, true, false⟩ true]) ['a', '|', 'b'] ['c'] ⟨true, false, false⟩).2 = true := by decide
+
+/-- non-vacuity, database service: the history "create unrestricted, read (cache warm), first DSN-level grant,
+    table grant for bob" — the store records the DSN as restricted, bob (DSN-level + table grant) reads, carol
+    (DSN-level grant only) and dave (nothing) do not -/
+def exDbHist : List DOp :=
+  [.writeDSN ['d'] false, .row ['b'] false Act.none .read ['d'] ['t'],
+   .grantDSN ['b'] ['d'] ⟨true, true, false⟩ true, .grantDSN ['c'] ['d'] ⟨true, true, false⟩ true,
+   .perms (.grant ['b'] ['d'] ['t'] [nRead]), .evict ['d'], .authDSN ['c'] ['d'] ⟨true, false, false⟩]
+
+example : (drun DSt.init exDbHist).rows.lookup ['d'] = some true ∧
+    (drun DSt.init exDbHist).cache.lookup ['d'] = some true ∧
+    (dbRowRequest (drun DSt.init [.writeDSN ['d'] false]) ['b'] false Act.none .read ['d'] ['t']).2 = .pass ∧
+    (dbRowRequest (drun DSt.init exDbHist) ['b'] false Act.none .read ['d'] ['t']).2 = .pass ∧
+    (dbRowRequest (drun DSt.init exDbHist) ['b'] false Act.none .insert ['d'] ['t']).2 = .forbidden ∧
+    (dbRowRequest (drun DSt.init exDbHist) ['c'] false Act.none .read ['d'] ['t']).2 = .forbidden ∧
+    (dbRowRequest (drun DSt.init exDbHist) ['e'] false ⟨true, true, true⟩ .read ['d'] ['t']).2 = .forbidden ∧
+    (dbRowRequest (drun DSt.init exDbHist) ['e'] false Act.none .read ['d'] ['t']).2 = .forbidden := by decide
+
+example : ∀ op ∈ exDbHist, ¬ op.dsnGrantsTo ['e'] ['d'] := by
+  intro op h; simp only [exDbHist, List.mem_cons, List.not_mem_nil, or_false] at h
+  rcases h with h | h | h | h | h | h | h <;> subst h <;> simp [DOp.dsnGrantsTo]
+
 end EgoVerif.C43
